@@ -8,7 +8,7 @@ SNAP=/tmp/iso-verif-$NAME; REPO=/tmp/iso-repo-$NAME
 export GOFLAGS=-mod=mod GOPROXY=off GOSUMDB=off GOTOOLCHAIN=local GOCACHE=/verif/.cache/go-build
 rm -rf $SNAP; git -C /repo worktree remove --force $REPO 2>/dev/null
 git -C /repo worktree add -q --detach $REPO HEAD || exit 2
-cleanup() { git -C /repo worktree remove --force $REPO; rm -rf $SNAP; }
+cleanup() { [ -n "${ISO_KEEP:-}" ] && return; git -C /repo worktree remove --force $REPO; rm -rf $SNAP; }
 trap cleanup EXIT
 # development only: carry uncommitted /repo files (space separated, relative) into the scratch worktree first
 for f in ${ISO_REPO_FILES:-}; do cp /repo/$f $REPO/$f; done
